@@ -177,16 +177,33 @@ pub fn run(scn: &Value) -> Value {
     let lstrip: Option<&[&str]> = if striprefs.is_empty() { None } else { Some(&striprefs) };
     let res;
     if scn["cmd"] == "norun" {
-        in_toto::verif::start_recording();
-        let r = guarded(|| in_toto::runlib::record_artifacts(&argrefs, Some(algs), lstrip));
-        let ev = in_toto::verif::take_events();
-        res = match r {
-            Ok(Ok(map)) => {
-                let (entries, dig_ok) = entries_of(&map, algs, class, big);
-                json!({"out": "ok", "entries": entries, "digests_ok": dig_ok, "events": ev.len()})
+        // the specification's result does not depend on the ORDER of the strip prefixes: try every order
+        let mut results: Vec<Value> = vec![];
+        for perm in perms(striprefs.len().min(3)) {
+            let ordered: Vec<&str> = perm.iter().map(|&k| striprefs[k]).collect();
+            let ls: Option<&[&str]> = if ordered.is_empty() { None } else { Some(&ordered) };
+            in_toto::verif::start_recording();
+            let r = guarded(|| in_toto::runlib::record_artifacts(&argrefs, Some(algs), ls));
+            let ev = in_toto::verif::take_events();
+            results.push(match r {
+                Ok(Ok(map)) => {
+                    let (entries, dig_ok) = entries_of(&map, algs, class, big);
+                    json!({"out": "ok", "entries": entries, "digests_ok": dig_ok, "events": ev.len()})
+                }
+                Ok(Err(e)) => json!({"out": "err", "msg": e.to_string()}),
+                Err(p) => json!({"out": "panic", "msg": p}),
+            });
+        }
+        // report the first result that differs from the first order (if any), else the first
+        let first = results[0].clone();
+        let differing = results.iter().find(|r| r["out"] != first["out"] || r["entries"] != first["entries"]).cloned();
+        res = match differing {
+            Some(d) => {
+                let mut d = d;
+                d["order_dependent"] = json!(true);
+                d
             }
-            Ok(Err(e)) => json!({"out": "err", "msg": e.to_string()}),
-            Err(p) => json!({"out": "panic", "msg": p}),
+            None => first,
         };
     } else {
         let t = |rel: &str| map_path(rel, class);
